@@ -1,9 +1,51 @@
 (* C08 — Loop indices, connectivity and exterior domains follow the loop
    decomposition.  Only property theorems: each is closed by `exact` and followed
-   by Print Assumptions. *)
+   by Print Assumptions.
+
+   Reading guide: a well-formed structure is the rendering of a dyck tree d and
+   make_pair_table returns tab_of d (first theorem, from C06).  On trees,
+   loops_of d is the pre-order loop numbering (0 outermost; both partners of a
+   pair carry the loop they enclose; an unpaired position the loop of its
+   innermost enclosing pair), bl d 0 0 lists the loop directly containing each
+   strand break and ends d = bl d 0 0 ++ [0] adds the loop of the outer ends. *)
 From Coq Require Import List NArith.
-From DSD Require Import Base.Str Base.Errors Model.ComplexUtils Model.Loops Proofs.Loops.
+From DSD Require Import Base.Str Base.Errors Model.ComplexUtils Model.Loops Dyck.Dyck
+  Proofs.Db Proofs.Assoc Proofs.C06 Proofs.Loops.
 Import ListNotations.
+
+(* every accepted structure is the rendering of a tree, the table is that tree's table *)
+Theorem C08_accepted_structures_are_trees : forall brk ign s t,
+  make_pair_table brk ign s = Ok t ->
+  exists d, map (classify brk ign) s = render d /\ t = tab_of d.
+Proof. exact mpt_ok_tree. Qed.
+Print Assumptions C08_accepted_structures_are_trees.
+
+(* li_spec, components = True: never raises; loop index = loop decomposition,
+   per-strand intervals = consecutive break loops starting and ending with loop 0 *)
+Theorem C08_loop_index_components : forall d,
+  make_loop_index_comp (tab_of d) = Ok (loops_of d, chain 0 (ends d)).
+Proof. exact li_spec_comp. Qed.
+Print Assumptions C08_loop_index_components.
+
+(* li_spec + ext_spec, components = False: when no loop holds two strand breaks
+   (the outer ends counting as breaks of loop 0) the result is the loop
+   decomposition and the exterior loops are exactly the loops directly
+   containing a break, plus loop 0 *)
+Theorem C08_loop_index_and_exterior : forall d,
+  NoDup (ends d) -> make_loop_index (tab_of d) = Ok (loops_of d, ends d).
+Proof. exact li_spec_ok. Qed.
+Print Assumptions C08_loop_index_and_exterior.
+
+(* ... otherwise it raises SecondaryStructureError, nothing else *)
+Theorem C08_loop_index_rejects : forall d,
+  ~ NoDup (ends d) -> make_loop_index (tab_of d) = Err eSSE.
+Proof. exact li_spec_err. Qed.
+Print Assumptions C08_loop_index_rejects.
+
+Theorem C08_loop_index_accepts_iff : forall d,
+  (exists r, make_loop_index (tab_of d) = Ok r) <-> NoDup (ends d).
+Proof. exact li_accepts_iff. Qed.
+Print Assumptions C08_loop_index_accepts_iff.
 
 Theorem C08_is_connected_iff_loop_index : forall sst,
   is_connected sst = Ok true <-> exists le, loop_index_of sst = Ok le.
